@@ -106,7 +106,13 @@ def run_case(case):
     try:
         pp.pipeflow(net, **kw)
     except Exception as e:
-        return {"status": "raised:" + type(e).__name__, "violations": []}
+        vs = []
+        if type(e).__name__ != "PipeflowNotConverged":
+            # a valid network with an admissible friction model: the only legitimate refusal is "not converged"
+            vs.append(viol("calculation_raises", "%s: %s with friction_model=%s on %s" % (
+                type(e).__name__, str(e)[:120], kw.get("friction_model"), case.get("point", {}).get("element", case.get("scope"))),
+                exc=type(e).__name__, friction=kw.get("friction_model")))
+        return {"status": "raised:" + type(e).__name__, "violations": vs}
     return check_net(net, kw["friction_model"])
 
 
